@@ -49,3 +49,58 @@ def heap(kind):
         yield
     finally:
         e1.LocatorMaxHeap, e2.LocatorMaxHeap = o1, o2
+
+
+class NondetChartMixin:
+    pass
+
+
+def make_nondet_chart():
+    """Chart subclass whose popitem returns an engine-chosen key: every agenda pop order is a path."""
+    from genlm.grammar.chart import Chart
+
+    class NondetChart(Chart):
+        pops = 0
+
+        def popitem(self):
+            keys = sorted(self.keys(), key=repr)
+            i = E.ENG.choose(len(keys), "pop")
+            k = keys[i]
+            v = dict.pop(self, k)
+            NondetChart.pops += 1
+            return k, v
+
+        def spawn(self):
+            return NondetChart(self.semiring)
+
+    return NondetChart
+
+
+@contextlib.contextmanager
+def chart(kind):
+    from . import sym as S
+    from genlm.grammar.chart import Chart
+
+    if kind != "nondet":
+        yield None
+        return
+    old = S.CHART_FACTORY[0]
+    cls = make_nondet_chart()
+    S.CHART_FACTORY[0] = cls
+    try:
+        yield cls
+    finally:
+        S.CHART_FACTORY[0] = old
+
+
+@contextlib.contextmanager
+def agenda_hook(fn):
+    import genlm.grammar.cfg as C
+
+    if C._VERIF_HOOKS is None:
+        raise E.HarnessError("hook H1 unavailable: GENLM_GRAMMAR_VERIF=1 not set when genlm.grammar.cfg was imported")
+    C._VERIF_HOOKS["agenda"] = fn
+    try:
+        yield
+    finally:
+        C._VERIF_HOOKS.pop("agenda", None)
